@@ -747,3 +747,107 @@ func storesToArray(a *ssa.Alloc) []*ssa.Store {
 	}
 	return out
 }
+
+func init() { register("C04", ruleC04EntryMatcher) }
+
+// ruleC04EntryMatcher: every successful result of a join entry is a matcher's result.
+func ruleC04EntryMatcher(c *Ctx) {
+	c.Doc("c04.entry-matcher", "join entries ((*Join).Exec, Join, HashJoin, StraightJoin): every return either reports an error (nil rows) or forwards, unchanged, both results of the next stage — Exec: one of the three entries; the entries: the serial or parallel matcher of their kind applied to (catalog of the left rows, catalog of the right rows) — no path answers with rows of its own (an empty-input or other shortcut would drop the NULL-padded rows of an outer join)")
+	want := map[string][]string{
+		"Exec":         {"StraightJoin", "HashJoin", "Join"},
+		"Join":         {"JoinFunc", "ParallelJoinFunc"},
+		"StraightJoin": {"JoinFunc", "ParallelJoinFunc"},
+		"HashJoin":     {"HashJoinFunc", "ParallelHashJoinFunc"},
+	}
+	for _, name := range []string{"Exec", "Join", "StraightJoin", "HashJoin"} {
+		f := c.P.Method(modPath, "Join", name)
+		key := "(*Join)." + name
+		if f == nil {
+			c.Unknown("c04.entry-matcher", key, "-", "anchor lost")
+			continue
+		}
+		c.Fn(key)
+		paths, err := WalkFunc(f, WalkCfg{MaxVisits: 1, MaxPaths: 4000})
+		if err != nil {
+			c.Unknown("c04.entry-matcher", key, c.P.Pos(f.Pos()), err.Error())
+			continue
+		}
+		var why []string
+		fw := map[string]bool{}
+		for _, p := range paths {
+			if p.Exit != "return" || len(p.Ret) != 2 {
+				if p.Exit != "panic" {
+					why = append(why, "path ends with "+p.Exit)
+				}
+				continue
+			}
+			r := ext0(p.Ret[0].T)
+			if r != nil && r.Op == "call" {
+				call, isCall := r.V.(*ssa.Call)
+				callee := ""
+				if isCall && call.Common().StaticCallee() != nil {
+					callee = call.Common().StaticCallee().Name()
+				}
+				okCallee := false
+				for _, w := range want[name] {
+					if w == callee {
+						okCallee = true
+					}
+				}
+				if !okCallee {
+					why = append(why, "a path returns the result of "+r.Name+", not of "+strings.Join(want[name], "/"))
+					continue
+				}
+				if x := p.Ret[1].T; x == nil || x.Op != "ext" || x.Name != "1" || x.Args[0].V != r.V {
+					why = append(why, "the error of "+callee+" is not forwarded with its rows")
+				}
+				if name != "Exec" {
+					a := call.Call.Args
+					if len(a) != 3 || !isCatalogOf(a[1], "left") || !isCatalogOf(a[2], "right") {
+						why = append(why, "the matcher is not applied to (catalog of j.left, catalog of j.right): "+r.String())
+					}
+				}
+				fw[callee] = true
+				continue
+			}
+			if p.Ret[0].Nil && !p.Ret[1].Nil {
+				continue
+			}
+			why = append(why, "a path answers with rows of its own instead of a matcher's result: "+avString(p.Ret[0])+" (error "+avString(p.Ret[1])+")")
+		}
+		for _, w := range want[name] {
+			if !fw[w] {
+				why = append(why, "no path forwards "+w)
+			}
+		}
+		c.Check(len(why) == 0, "c04.entry-matcher", key, c.P.Pos(f.Pos()), "every success return forwards "+strings.Join(want[name], "/"), strings.Join(uniq(why), "; "))
+	}
+}
+
+// isCatalogOf: the value is result 0 of ToCatalog(load of <j>.side, ...) — the field as it stands at the call
+// (after the entry's side swap, if any).
+func isCatalogOf(v ssa.Value, side string) bool {
+	ex, ok := v.(*ssa.Extract)
+	if !ok || ex.Index != 0 {
+		return false
+	}
+	call, ok := ex.Tuple.(*ssa.Call)
+	if !ok || call.Common().StaticCallee() == nil || call.Common().StaticCallee().Name() != "ToCatalog" || len(call.Call.Args) < 1 {
+		return false
+	}
+	ld, ok := call.Call.Args[0].(*ssa.UnOp)
+	if !ok {
+		return false
+	}
+	fa, ok := ld.X.(*ssa.FieldAddr)
+	if !ok {
+		return false
+	}
+	return fieldName(fa.X.Type(), fa.Field) == side
+}
+
+// the ON predicate of the nested-loop matcher is an ordinary comparison: its operator table and the
+// value ordering are shared with C01 / C15
+func init() {
+	register("C04", ruleC01CmpTable, ruleC01Connectives, ruleC15Range, ruleC15Trichotomy, ruleC15ExactDomain, ruleC15Dispatch)
+}
